@@ -134,6 +134,8 @@ class Run:
         self.sc, self.world, self.signac = sc, world, signac
         self.pp = world.p("proj")
         self.proj = signac.init_project(self.pp)
+        # a second long-lived session on the same project (its in-memory cache goes stale independently)
+        self.sessions = [self.proj, signac.Project(self.pp)]
         self.model = {}
         self.ever = {}  # every state point that ever existed (membership is asked for these too)
         self.probes = {}
@@ -147,6 +149,9 @@ class Run:
 
     def go(self):
         for i, op in enumerate(self.sc["ops"]):
+            # operations alternate between the two sessions in a seeded pattern
+            self.cur = (i * 7 + len(op) + self.sc.get("seed", 0)) % 3 == 0
+            self.proj = self.sessions[1 if self.cur else 0]
             getattr(self, "op_" + op[0])(op)
             self.executed = i + 1
             self.grams.append(op[0])
@@ -185,6 +190,7 @@ class Run:
 
     def op_restart(self, op):
         self.proj = self.signac.Project(self.pp)
+        self.sessions[1 if self.cur else 0] = self.proj
         self.probe("restart")
 
     def op_rm_cache(self, op):
@@ -267,13 +273,14 @@ class Run:
                                    f"workspace in {diff}: got {[str(view[k])[:120] for k in diff][:2]}, "
                                    f"expected {[str(self._expected()[k])[:120] for k in diff][:2]}",
                                    f"C08:observation-{name}-file:{diff[0] if diff else ''}")
-            # the live session too (its in-memory cache may hold removed jobs)
-            live = self._view("live session", self.proj)
-            if live != self._expected():
-                diff = [k for k in live if live[k] != self._expected().get(k)]
-                raise Mismatch("C08", "C08:live-session-differs-from-model",
-                               f"after {op}: the live session disagrees in {diff}: "
-                               f"{[str(live[k])[:120] for k in diff][:2]}", f"C08:live-session:{diff[0]}")
+            # the live sessions too (their in-memory caches may hold removed jobs)
+            for si, sess in enumerate(self.sessions):
+                live = self._view(f"live session {si}", sess)
+                if live != self._expected():
+                    diff = [k for k in live if live[k] != self._expected().get(k)]
+                    raise Mismatch("C08", "C08:live-session-differs-from-model",
+                                   f"after {op}: live session {si} disagrees in {diff}: "
+                                   f"{[str(live[k])[:120] for k in diff][:2]}", f"C08:live-session:{diff[0]}")
         st, content = read_cache(self.pp)
         cached = sorted(x[:4] for x in content) if st == "ok" else st
         self.keys.append(f"s:{sorted(x[:4] for x in self.model)}|{cached}|{sorted(x[:4] for x in self.proj._sp_cache)}")
